@@ -32,9 +32,9 @@ for pid in sorted(os.listdir(os.path.join(root, "seeded"))):
     results = dict(x.split(":rc=") for x in res.split())
     caught = [k for k, v in results.items() if v == "1"]
     meta = {
-        "property": pid,
+        "property": pid.split("-")[0],
         "origin": "written by an independent sub-agent that saw only the property text and a scratch worktree of /repo",
-        "needs_to_manifest": NEEDS.get(pid, ""),
+        "needs_to_manifest": NEEDS.get(pid, "") or "see NOTES.md",
         "confirmed": {
             "demo_on_unchanged_tree_exit": int(base), "demo_with_change_exit": int(mut),
             "pinned_tests_with_change": tests.strip(),
